@@ -77,13 +77,13 @@ Proof.
   destruct (existsb _ toks); reflexivity.
 Qed.
 
-(* ---------- the conditional hop-by-hop loop of createUpstreamRequest ---------- *)
-Definition hop_step (h : hdr) (k : bytes) : hdr := if has_key h k then hdel h k else h.
+(* ---------- the hop-by-hop loop of createUpstreamRequest ---------- *)
+Definition hop_step (h : hdr) (k : bytes) : hdr := hdel h k.
 
 Lemma hop_step_lookup h k0 k :
   hlookup (hop_step h k0) k = hlookup h k \/ hlookup (hop_step h k0) k = None.
 Proof.
-  unfold hop_step. destruct (has_key h k0); [|left; reflexivity].
+  unfold hop_step.
   rewrite hlookup_hdel. destruct (beq (canon_key k0) k); [right|left]; reflexivity.
 Qed.
 
@@ -99,7 +99,7 @@ Lemma hop_fold_removed L h k0 :
 Proof.
   revert h. induction L as [|k1 L IH]; intros h HIn Hc; [destruct HIn|]. simpl.
   destruct HIn as [->|HIn].
-  - apply hop_fold_none. unfold hop_step, has_key. destruct (hlookup h k0) eqn:E; [|exact E].
+  - apply hop_fold_none. unfold hop_step.
     rewrite hlookup_hdel, Hc, beq_refl. reflexivity.
   - apply IH; assumption.
 Qed.
@@ -109,7 +109,7 @@ Lemma hop_fold_kept L h k :
 Proof.
   revert h. induction L as [|k1 L IH]; intros h H; simpl; [reflexivity|].
   rewrite IH by (intros k0 H0; apply H; right; exact H0).
-  unfold hop_step. destruct (has_key h k1); [|reflexivity].
+  unfold hop_step.
   rewrite hlookup_hdel. assert (Hk : canon_key k1 <> k) by (apply H; left; reflexivity).
   apply beq_false_iff in Hk. rewrite Hk. reflexivity.
 Qed.
@@ -360,11 +360,11 @@ Proof.
 Qed.
 
 Lemma apply_rule_lookup e h0 h (r : rule) k :
-  hlookup (apply_rule e (Some h0) h r) k =
+  hlookup (apply_rule e h0 h r) k =
   fold_left vop_apply (vops_for (subst_of e h0) [r] k) (hlookup h k).
 Proof.
   destruct r as [f vals]. unfold vops_for. simpl flat_map. rewrite app_nil_r.
-  unfold apply_rule. simpl live_of.
+  unfold apply_rule.
   destruct f as [|c name].
   - apply (set_rule_lookup (subst_of e h0) [] vals h k).
   - destruct (c =? PLUS) eqn:Ep.
@@ -380,7 +380,7 @@ Lemma vops_for_cons sub (r : rule) rs k : vops_for sub (r :: rs) k = vops_for su
 Proof. unfold vops_for. simpl. rewrite app_nil_r. reflexivity. Qed.
 
 Lemma rules_lookup e h0 rules h k :
-  hlookup (fold_left (apply_rule e (Some h0)) rules h) k =
+  hlookup (fold_left (apply_rule e h0) rules h) k =
   fold_left vop_apply (vops_for (subst_of e h0) rules k) (hlookup h k).
 Proof.
   revert h. induction rules as [|r rs IH]; intros h; [reflexivity|].
@@ -389,7 +389,7 @@ Qed.
 
 Lemma rerule_fold_lookup e h0 f pts h k :
   hlookup (fold_left (fun h pt =>
-               let x := replace_ph (subst_of e (live_of (Some h0) h)) (snd pt) in
+               let x := replace_ph (subst_of e h0) (snd pt) in
                let orig := hget h f in
                if negb (is_nil x) && negb (is_nil orig) then hset h f (replace_all (fst pt) x orig) else h)
             pts h) k =
@@ -399,7 +399,7 @@ Lemma rerule_fold_lookup e h0 f pts h k :
 Proof.
   revert h. induction pts as [|pt pts IH]; intros h.
   - simpl. destruct (beq (canon_key f) k); reflexivity.
-  - simpl fold_left at 1. rewrite IH. simpl live_of.
+  - simpl fold_left at 1. rewrite IH.
     destruct (beq (canon_key f) k) eqn:E.
     + simpl map. simpl fold_left at 2. f_equal.
       apply beq_eq in E. unfold hget. rewrite E.
@@ -413,7 +413,7 @@ Proof.
 Qed.
 
 Lemma apply_rerule_lookup e h0 h (r : rerule) k :
-  hlookup (apply_rerule e (Some h0) h r) k =
+  hlookup (apply_rerule e h0 h r) k =
   fold_left vop_apply (revops_for (subst_of e h0) [r] k) (hlookup h k).
 Proof.
   unfold apply_rerule, revops_for. simpl flat_map. rewrite app_nil_r.
@@ -421,7 +421,7 @@ Proof.
 Qed.
 
 Lemma rerules_lookup e h0 res h k :
-  hlookup (fold_left (apply_rerule e (Some h0)) res h) k =
+  hlookup (fold_left (apply_rerule e h0) res h) k =
   fold_left vop_apply (revops_for (subst_of e h0) res k) (hlookup h k).
 Proof.
   revert h. induction res as [|r rs IH]; intros h; [reflexivity|].
@@ -432,7 +432,7 @@ Qed.
 (* exactly the configured changes: the value of every header after mutateHeadersByRules is the
    value before, transformed by the operations of the rules that target it, in table order *)
 Lemma mutate_headers_lookup e h0 rules res h k :
-  hlookup (mutate_headers e (Some h0) rules res h) k =
+  hlookup (mutate_headers e h0 rules res h) k =
   fold_left vop_apply (vops_for (subst_of e h0) rules k ++ revops_for (subst_of e h0) res k) (hlookup h k).
 Proof. unfold mutate_headers. rewrite rerules_lookup, rules_lookup, fold_left_app. reflexivity. Qed.
 
@@ -449,7 +449,7 @@ Qed.
 Lemma mutate_headers_untouched e h0 rules res h k :
   (forall r, In r rules -> rule_target (fst r) <> k) ->
   (forall r, In r res -> canon_key (fst r) <> k) ->
-  hlookup (mutate_headers e (Some h0) rules res h) k = hlookup h k.
+  hlookup (mutate_headers e h0 rules res h) k = hlookup h k.
 Proof.
   intros H1 H2. rewrite mutate_headers_lookup.
   assert (E1 : vops_for (subst_of e h0) rules k = []).
@@ -557,7 +557,7 @@ Definition auth_hdr (t : target) (h : hdr) : hdr :=
   end.
 
 Lemma attempt_spec c e h0 st t :
-  let o := snd (attempt c e (Some h0) st t) in
+  let o := snd (attempt c e h0 st t) in
   (forall k, hlookup (o_hdr o) k =
              fold_left vop_apply (vops_for (subst_of e h0) (c_up c) k ++ revops_for (subst_of e h0) (c_upre c) k)
                        (hlookup (auth_hdr t (s_hdr st)) k)) /\
@@ -573,31 +573,45 @@ Proof.
 Qed.
 
 (* ---------- retries: every attempt starts from the request createUpstreamRequest produced ---------- *)
-Lemma attempts_fresh c e fixed st0 ts : forall st i t,
+Lemma attempts_fresh c e h0 st0 ts : forall st i t,
   nth_error ts i = Some t ->
-  nth_error (fst (attempts c e fixed true st0 st ts)) i = Some (snd (attempt c e fixed st0 t)).
+  nth_error (fst (attempts c e h0 true st0 st ts)) i = Some (snd (attempt c e h0 st0 t)).
 Proof.
   induction ts as [|t0 ts IH]; intros st i t H; [destruct i; discriminate|].
-  cbn [attempts]. destruct (attempt c e fixed st0 t0) as [st' o] eqn:Ea.
-  destruct (attempts c e fixed true st0 st' ts) as [os stf] eqn:Er. cbn [fst].
+  cbn [attempts]. destruct (attempt c e h0 st0 t0) as [st' o] eqn:Ea.
+  destruct (attempts c e h0 true st0 st' ts) as [os stf] eqn:Er. cbn [fst].
   destruct i as [|i]; cbn [nth_error] in *.
   - injection H as <-. rewrite Ea. reflexivity.
   - specialize (IH st' i t H). rewrite Er in IH. exact IH.
 Qed.
 
-Lemma attempts_length c e fixed retriable st0 ts : forall st,
-  length (fst (attempts c e fixed retriable st0 st ts)) = length ts.
+Lemma attempts_length c e h0 retriable st0 ts : forall st,
+  length (fst (attempts c e h0 retriable st0 st ts)) = length ts.
 Proof.
   induction ts as [|t0 ts IH]; intros st; [reflexivity|]. cbn [attempts].
-  destruct (attempt c e fixed (if retriable then st0 else st) t0) as [st' o].
-  specialize (IH st'). destruct (attempts c e fixed retriable st0 st' ts) as [os stf]. cbn [fst length] in *. rewrite IH. reflexivity.
+  destruct (attempt c e h0 (if retriable then st0 else st) t0) as [st' o].
+  specialize (IH st'). destruct (attempts c e h0 retriable st0 st' ts) as [os stf]. cbn [fst length] in *. rewrite IH. reflexivity.
 Qed.
 
-(* what the placeholders read when retries are possible: never the map being rewritten *)
-Definition live_retriable (q : request) : hdr :=
-  if req_copied (q_hdr q) then q_hdr q else s_hdr (init_state q).
-Lemma fixed_of_retriable q : fixed_of true q = Some (live_retriable q).
-Proof. unfold fixed_of, live_retriable. destruct (req_copied (q_hdr q)); reflexivity. Qed.
+(* the FIRST attempt, with or without retries: placeholders read the client's own header map *)
+Lemma first_attempt_spec c retriable q t ts :
+  exists o os, fst (run_request c retriable q (t :: ts)) = o :: os /\
+    u_path (o_url o) = spec_path t (c_without c) (u_path (q_url q)) /\
+    u_query (o_url o) = spec_query t (u_query (q_url q)) /\
+    o_urlhost o = t_host t /\
+    (forall k, hlookup (o_hdr o) k =
+               fold_left vop_apply (vops_for (subst_of (env_of q) (q_hdr q)) (c_up c) k ++
+                                    revops_for (subst_of (env_of q) (q_hdr q)) (c_upre c) k)
+                         (hlookup (auth_hdr t (create_upstream_headers (q_remote q) (q_hdr q))) k)).
+Proof.
+  unfold run_request. cbn [attempts].
+  assert (E : (if retriable then init_state q else init_state q) = init_state q) by (destruct retriable; reflexivity).
+  rewrite E. destruct (attempt c (env_of q) (q_hdr q) (init_state q) t) as [st' o] eqn:Ea.
+  destruct (attempts c (env_of q) (q_hdr q) retriable (init_state q) st' ts) as [os stf].
+  exists o, os. split; [reflexivity|].
+  pose proof (attempt_spec c (env_of q) (q_hdr q) (init_state q) t) as S. rewrite Ea in S. simpl in S.
+  destruct S as [S1 [S2 [S3 S4]]]. split; [exact S2|]. split; [exact S3|]. split; [exact S4|exact S1].
+Qed.
 
 (* EVERY attempt (first or retry) to target t: path/query per the director applied ONCE to the client's
    URL, headers = (stripped headers + that upstream's credentials) transformed ONCE by the rules *)
@@ -608,14 +622,14 @@ Lemma retry_every_attempt_spec c q ts i t :
     u_query (o_url o) = spec_query t (u_query (q_url q)) /\
     o_urlhost o = t_host t /\
     (forall k, hlookup (o_hdr o) k =
-               fold_left vop_apply (vops_for (subst_of (env_of q) (live_retriable q)) (c_up c) k ++
-                                    revops_for (subst_of (env_of q) (live_retriable q)) (c_upre c) k)
+               fold_left vop_apply (vops_for (subst_of (env_of q) (q_hdr q)) (c_up c) k ++
+                                    revops_for (subst_of (env_of q) (q_hdr q)) (c_upre c) k)
                          (hlookup (auth_hdr t (create_upstream_headers (q_remote q) (q_hdr q))) k)).
 Proof.
-  intros H. unfold run_request. rewrite fixed_of_retriable.
-  exists (snd (attempt c (env_of q) (Some (live_retriable q)) (init_state q) t)).
+  intros H. unfold run_request.
+  exists (snd (attempt c (env_of q) (q_hdr q) (init_state q) t)).
   split; [apply attempts_fresh; exact H|].
-  pose proof (attempt_spec c (env_of q) (live_retriable q) (init_state q) t) as S. simpl in S.
+  pose proof (attempt_spec c (env_of q) (q_hdr q) (init_state q) t) as S. simpl in S.
   destruct S as [S1 [S2 [S3 S4]]]. split; [exact S2|]. split; [exact S3|]. split; [exact S4|exact S1].
 Qed.
 
@@ -671,18 +685,19 @@ Proof.
   repeat split; vm_compute; reflexivity.
 Qed.
 
-(* aliasing: with no hop-by-hop header in the request, {>X-Forwarded-For} reads the value the proxy
-   itself just wrote; with one (the map is copied) it reads what the client sent *)
-Lemma placeholder_alias_refuted :
-  exists c q q' t o o',
-    q_hdr q' = q_hdr q ++ [(K_CONNECTION, [bs "keep-alive"%string])] /\
-    fst (run_request c false q [t]) = [o] /\ fst (run_request c false q' [t]) = [o'] /\
-    hlookup (o_hdr o) (bs "X-New"%string) = Some [bs "1.1.1.1, 192.0.2.7"%string] /\
-    hlookup (o_hdr o') (bs "X-New"%string) = Some [bs "1.1.1.1"%string].
+(* the witness of the former finding F-C04-5 (header-map aliasing): {>X-Forwarded-For} reads what the
+   client sent whether or not the client also sent `Connection: keep-alive` *)
+Definition wit_q' : request :=
+  {| q_method := q_method wit_q; q_host := q_host wit_q; q_remote := q_remote wit_q; q_url := q_url wit_q;
+     q_hdr := q_hdr wit_q ++ [(K_CONNECTION, [bs "keep-alive"%string])] |}.
+Definition wit_c5 : pcfg := parse_cfg [DUp (bs "X-New"%string) (bs "{>X-Forwarded-For}"%string)].
+Lemma placeholder_reads_client_headers :
+  exists o o',
+    fst (run_request wit_c5 false wit_q [wit_t]) = [o] /\ fst (run_request wit_c5 false wit_q' [wit_t]) = [o'] /\
+    hlookup (o_hdr o) (bs "X-New"%string) = Some [bs "1.1.1.1"%string] /\
+    hlookup (o_hdr o') (bs "X-New"%string) = Some [bs "1.1.1.1"%string] /\
+    hlookup (o_hdr o) K_XFF = Some [bs "1.1.1.1, 192.0.2.7"%string].
 Proof.
-  exists (parse_cfg [DUp (bs "X-New"%string) (bs "{>X-Forwarded-For}"%string)]), wit_q,
-    {| q_method := q_method wit_q; q_host := q_host wit_q; q_remote := q_remote wit_q; q_url := q_url wit_q;
-       q_hdr := q_hdr wit_q ++ [(K_CONNECTION, [bs "keep-alive"%string])] |}, wit_t.
-  eexists. eexists. split; [reflexivity|]. split; [vm_compute; reflexivity|]. split; [vm_compute; reflexivity|].
-  split; vm_compute; reflexivity.
+  eexists. eexists. split; [vm_compute; reflexivity|]. split; [vm_compute; reflexivity|].
+  repeat split; vm_compute; reflexivity.
 Qed.
